@@ -201,12 +201,12 @@ theorem decArr_here (d : Schema → Item → Option Value) (pos : Nat) (s : Sche
       (match d s it, decArr d (pos + 1) fs rest with
        | some v, some vs => some (v :: vs)
        | _, _ => none) := by
-  simp only [decArr, Nat.sub_self, List.drop_zero]
+  simp only [decArr, Nat.sub_self, List.drop_zero, List.take_zero, utf8OkList, if_true]
   rfl
 
 theorem decArr_end_opt (d : Schema → Item → Option Value) (pos idx : Nat) (s : Schema) :
     decArr d pos [(idx, .opt s)] [] = some [Value.none] := by
-  simp [decArr, Schema.isOpt]
+  simp [decArr, Schema.isOpt, utf8OkList]
 
 theorem encArr_here (e : Schema → Value → Option Item) (pos : Nat) (s : Schema) (fs : List (Nat × Schema))
     (v : Value) (vs : List Value) (hn : isNilField s v = false) :
@@ -285,7 +285,7 @@ theorem block_struct_iso (d : Schema → Item → Option Value) (e : Schema → 
     cases h3 : d (.btmap (.uint 32) (.keepRaw A)) aux with
     | none => simp [h0, h1, h2, h3] at hd
     | some v3 =>
-    simp only [h0, h1, h2, h3, d4, decArr, Option.map_some, Option.some.injEq] at hd
+    simp only [h0, h1, h2, h3, d4, decArr, utf8OkList, if_true, Option.map_some, Option.some.injEq] at hd
     subst hd
     simp only [encStruct]
     rw [encArr_here _ _ _ _ _ _ (notNil_keepRaw _ _), encArr_here _ _ _ _ _ _ (notNil_maybeIndef _ _),
